@@ -16,9 +16,11 @@ import time
 
 VERIF = os.path.dirname(os.path.dirname(os.path.abspath(__file__)))
 COQ = os.path.join(VERIF, "coq")
-EVID = os.path.join(VERIF, "evidence")
-REPLAY = os.path.join(EVID, "replay")
 REPO = os.environ.get("VERIF_REPO", "/repo")
+# runs against a scratch tree (seeded changes) must not overwrite the evidence of /repo itself
+EVID = os.environ.get("VERIF_EVIDENCE_DIR") or os.path.join(VERIF, "evidence" if os.path.realpath(REPO) == "/repo" else ".scratch_evidence")
+REPLAY = os.path.join(EVID, "replay")
+os.makedirs(REPLAY, exist_ok=True)
 
 KERNEL_TB = [
     "Coq 8.16.1 kernel (coqc, full .vo build; vm_compute used for reflection; no native_compute)",
